@@ -56,7 +56,7 @@ var hangCount int
 
 const hangBudget = 5
 
-func noteHang()        { hangCount++ }
+func noteHang()            { hangCount++ }
 func overHangBudget() bool { return hangCount >= hangBudget }
 
 func main() {
